@@ -145,6 +145,7 @@ fn single_field_sweep(bits64: bool, section_only: bool) -> Vec<Item> {
         text_skew: 0,
         soname_last: false,
         dynamic_section_cuts_null: false,
+        big_endian: false,
     };
     let built = elf::build(&spec);
     let mut out = Vec::new();
